@@ -29,7 +29,21 @@ fn strategy(tier: Tier) -> BoxedStrategy<SummaryCase> {
     let mut sp = super::c02::scen_params();
     sp.max_events = 6;
     let scen = super::c02::scenario_strategy(sp);
-    (prop_oneof![ledger, scen], any::<u16>(), 0usize..12, any::<bool>()).prop_map(|(ledger, ix, off, annual)| {
+    // a year whose gains and losses cancel exactly (sell k above cost by d, sell k below cost by d, no purchase near the loss)
+    let cancel = (0usize..3, 0usize..2, 0usize..3, 0usize..2, any::<bool>(), any::<bool>()).prop_map(|(ni, pi, di, ki, spouse, more)| {
+        use crate::gen::{ymd, HRow};
+        let (n, p, d, k) = ([30i64, 50, 100][ni], ["10", "12.5"][pi], ["1", "2", "0.5"][di], [5i64, 10][ki]);
+        let (pr, dr) = (Rat::parse(p).unwrap(), Rat::parse(d).unwrap());
+        let af = if spouse { "Spouse" } else { "" };
+        let mk = |y: i32, m: u8, day: u8, act: Act, sh: i64, px: &Rat| { let dt = ymd(y, m, day); let mut r = HRow::new("FOO", dt, dt, act); r.shares = sh.to_string(); r.price = px.to_decimal_string(10).unwrap(); r.af = af.to_string(); r };
+        let mut rows = vec![mk(2019, 2, 4, Act::Buy, n, &pr), mk(2019, 3, 11, Act::Sell, k, &pr.add(&dr)), mk(2019, 6, 17, Act::Sell, k, &pr.sub(&dr))];
+        if more { rows.push(mk(2020, 2, 3, Act::Sell, k, &pr.add(&dr).add(&dr))); }
+        rows.push(mk(2020, 9, 1, Act::Buy, 5, &pr));
+        rows.push(mk(2020, 10, 13, Act::Sell, 8, &pr.add(&Rat::one())));
+        if !spouse { let mut r = mk(2019, 4, 1, Act::Buy, 7, &pr); r.af = "Spouse".into(); rows.insert(2, r); }
+        LedgerCase { rows, opening: vec![], tags: vec!["year-netting-to-zero".into()] }
+    });
+    (prop_oneof![4 => ledger, 4 => scen, 1 => cancel.boxed()], any::<u16>(), 0usize..12, any::<bool>()).prop_map(|(ledger, ix, off, annual)| {
         let mut dates: Vec<Date> = ledger.rows.iter().map(|r| r.sd).collect(); dates.sort(); dates.dedup();
         let base = if dates.is_empty() { crate::gen::ymd(2020, 1, 1) } else { dates[(ix as usize * dates.len()) >> 16] };
         let cut = base + Duration::days([0i64, -1, 1, 29, 30, 31, -29, -30, -31, 5, 400, -400][off]);
